@@ -1441,11 +1441,6 @@ Janet janet_call(JanetFunction *fun, int32_t argc, const Janet *argv) {
 static JanetSignal janet_check_can_resume(JanetFiber *fiber, Janet *out, int is_cancel) {
     /* Check conditions */
     JanetFiberStatus old_status = janet_fiber_status(fiber);
-    if (janet_vm.stackn >= JANET_RECURSION_GUARD) {
-        janet_fiber_set_status(fiber, JANET_STATUS_ERROR);
-        *out = janet_cstringv("C stack recursed too deeply");
-        return JANET_SIGNAL_ERROR;
-    }
     /* If a "task" fiber is trying to be used as a normal fiber, detect that. See bug #920.
      * Fibers must be marked as root fibers manually, or by the ev scheduler. */
     if (janet_vm.fiber != NULL && (fiber->gc.flags & JANET_FIBER_FLAG_ROOT)) {
@@ -1467,6 +1462,13 @@ static JanetSignal janet_check_can_resume(JanetFiber *fiber, Janet *out, int is_
         const uint8_t *str = janet_formatc("cannot resume fiber with status :%s",
                                            janet_status_names[old_status]);
         *out = janet_wrap_string(str);
+        return JANET_SIGNAL_ERROR;
+    }
+    /* Only a fiber that could otherwise be resumed is failed by the recursion guard: a fiber that is refused
+     * anyway (running, finished, root) keeps its status. */
+    if (janet_vm.stackn >= JANET_RECURSION_GUARD) {
+        janet_fiber_set_status(fiber, JANET_STATUS_ERROR);
+        *out = janet_cstringv("C stack recursed too deeply");
         return JANET_SIGNAL_ERROR;
     }
     return JANET_SIGNAL_OK;
